@@ -72,7 +72,7 @@ def run():
     chk.assumptions += [
         "sequential callers (one call at a time on each service); concurrent use of a store is not modelled",
         "the database service is exercised on SQLite only (no PostgreSQL offline); 'restart' = Close, empty AuthCache, open again in the same test process",
-        "a nil and an empty permission list are the same answer; Passkeys are compared as JSON values; a bootstrapped default credential is observed as its class (boot | given/generated), never its random value",
+        "a nil and an empty permission list are the same answer and a permission list is compared as a multiset (order carries no meaning: the admin endpoint rebuilds it from a map); Passkeys are compared as JSON values; a bootstrapped default credential is observed as its class (boot | given/generated), never its random value",
         "records are written through WriteUser with three fixed credentials (no bcrypt in the hot path); the password mask expected from ListUsers(true) is defs.ElidedPassword",
         "no faults are injected (I/O and SQL errors are outside the histories)"]
     rng = random.Random(vf.SEED)
@@ -85,8 +85,11 @@ def run():
         fbuild = pool.submit(vf.go_test_compile, ov, PKG, binary, timeout=3600)
 
         def gen_stage(policy):
-            fs = pool.submit(generate, chk, sd, "UserStore_Gen.cfg", {"Policy": '"%s"' % policy, "Depth": "24" if thorough else "20"},
-                             "sim-" + policy, "num=%d" % (3000 if thorough else 200), 26 if thorough else 22, vf.SEED)
+            subs = {"Policy": '"%s"' % policy, "Depth": "24" if thorough else "20"}
+            if thorough:
+                subs["Names"] = '{"admin", "bob", "Bob", "o\'neil"}'
+            fs = pool.submit(generate, chk, sd, "UserStore_Gen.cfg", subs,
+                             "sim-" + policy, "num=%d" % (1000 if thorough else 200), 26 if thorough else 22, vf.SEED)
             fx = pool.submit(generate, chk, sd, "UserStore_GenX.cfg", {"Policy": '"%s"' % policy, "Depth": "4" if thorough else "3"},
                              "exhaustive-" + policy)
             return fs, fx
